@@ -170,6 +170,11 @@ func genConds(d *dDoc, n int) {
 	nc := zzverif.Choose("conditions", zzverif.Param("CONDS", 1)+1)
 	for i := 0; i < nc; i++ {
 		c := dCond{name: zzverif.Str("cond", 1, n, verifIdentAlpha()), expr: []string{"x", " ", "<", " ", "1"}}
+		if zzverif.Param("EXPRS", 0) == 2 && zzverif.Choose("missing-closing-brace", 2) == 1 {
+			// the closing brace of this condition is missing: the expression runs on over the declaration of the next one
+			c.expr = []string{"x", " ", "<", " ", "1", "\n\n", "condition", " ", "c2", "(", "y", ":", " ", "int", ")", " ", "{", "\n  ", "y", " ", "<", " ", "2"}
+			c.swallows = true
+		}
 		if zzverif.Param("EXPRS", 0) == 1 {
 			switch k := zzverif.Choose("expression-layout", 6); k {
 			case 1:
@@ -319,6 +324,13 @@ func VerifListener_Doc() {
 	l, errs, b := verifParseDoc(d)
 	relDup, condDup, paramDup, badExtend, repeatedExtend := docDuplicates(d)
 	bad := relDup || condDup || paramDup || badExtend || repeatedExtend
+	for _, c := range d.conds {
+		if c.swallows {
+			// a declaration that stands in the document and is not reflected in the model: the document must not be accepted
+			bad = true
+			zzverif.Class("rejected-iff-a-listener-rule-is-broken", "condition declaration swallowed by an expression without closing brace")
+		}
+	}
 	zzverif.Assert((errs != nil) == bad, "rejected-iff-a-listener-rule-is-broken")
 	if errs != nil {
 		zzverif.Reach("rejected")
